@@ -220,20 +220,17 @@ theorem mprocess_projEq_idem (T : Ten K m n n) (hm : 0 < m) :
 /-- C04.3 (MProcess) flag False: variable level is the object level. -/
 theorem mprocess_var_eq_obj_F (T : Ten K m n n) : MProcess.projEqVarF T = MProcess.projEq T := rfl
 
-/-- C04.4 purity, defect D5: the model of the caller's array after
-`MProcess.calc_proj_eq_constraint_with_var(c_sys, var, on_para_eq_constraint=False)` is NOT the array before the call:
-the routine overwrites the first HS rows of its argument (2 outcomes, n = 2, var = (1..8)). -/
-theorem mprocess_eq_var_F_argument_unchanged_fails :
-    ¬ ∀ T : Ten Rat 2 2 2, MProcess.argAfterEqVarF T = T := by
-  intro h
-  have := h #v[#v[#v[1, 2], #v[3, 4]], #v[#v[5, 6], #v[7, 8]]]
-  revert this
-  decide +kernel
+/-- C04.4 purity (repaired defect D5): in the model the caller's array after
+`MProcess.calc_proj_eq_constraint_with_var(c_sys, var, on_para_eq_constraint)` is the array before the call, for both
+flags and every argument (the model functions are pure everywhere else by construction; the correspondence compares
+before/after snapshots of every call site with the model). -/
+theorem mprocess_eq_var_argument_unchanged (T : Ten K m n n) (pre : Ten K m (n + 1) (n + 1))
+    (rest : Mat K n (n + 1)) :
+    MProcess.argAfterEqVarF T = T ∧ MProcess.argAfterEqVarT pre rest = (pre, rest) := ⟨rfl, rfl⟩
 
-/-- … while everything except the first rows is left alone, and a feasible argument is not changed at all
-(the defect-free part of the purity clause for this call site). -/
-theorem mprocess_eq_var_F_argument_partial (T : Ten K m n n) (hm : 0 < m) (hT : MProcess.Feas T) :
-    MProcess.argAfterEqVarF T = T := mprocess_projEq_fix T hm hT
+/-- … and the returned value does not depend on the aliasing either: the result for a feasible argument is the argument. -/
+theorem mprocess_eq_var_F_feasible_unchanged (T : Ten K m n n) (hm : 0 < m) (hT : MProcess.Feas T) :
+    MProcess.projEqVarF T = T := mprocess_projEq_fix T hm hT
 
 -- non-vacuity: concrete non-trivial instances (K = ℚ)
 example : State.Feas (1/2 : Rat) (State.projEq (1/2) (#v[3, 4, 5] : Vec Rat 3)) := state_projEq_mem _ _
